@@ -108,11 +108,25 @@ class Gen:
         d = depth + 1
         opts = ['arith', 'arith', 'if', 'app', 'car']
         if self.has('prelude'): opts += ['let', 'length', 'fold', 'variadic', 'block', 'last']
-        if self.has('higher'): opts += ['hocall']
+        if self.has('higher'): opts += ['hocall', 'thunk']
         if self.has('quote'): opts += ['eval']
         if self.has('traps'): opts += ['trap']
         k = r.choice(opts)
         self.note(k)
+        if k == 'thunk':
+            # a closure WITHOUT parameters that escapes its creation site and is called where the same name is bound to
+            # something else (or to nothing): tells lexical from dynamic scope
+            v = self.fresh('t')
+            body = self.expr('int', scope + [(v, 'int')], d)
+            made = f'((lambda ({v}) (lambda () {body})) {self.expr("int", scope, d)})'
+            c = r.random()
+            if c < 0.35:
+                return f'({made})'                                                       # returned, then called outside
+            if c < 0.7:
+                f = self.fresh('f')
+                return f'((lambda ({f} {v}) ({f})) {made} {self.expr("int", scope, d)})'   # called where the name is rebound
+            f = self.fresh('f')
+            return f'((lambda ({f}) ((lambda ({v}) ({f})) {self.expr("int", scope, d)})) (lambda () {v if r.random() < 0.6 else self.expr("int", scope, d)}))'  # the caller's variable is invisible
         if k == 'arith':
             op = r.choice(['add', 'add', 'substract', 'multiply', 'divide'])
             return f'({op} {self.expr("int", scope, d)} {self.expr("int", scope, d)})'
